@@ -159,11 +159,14 @@ def gen_trace(recipe):
         if len(T) < 2:
           continue
       dt = DTYPES[int(rng.integers(len(DTYPES)))]
+      forder = bool(rng.integers(2))
       digs = {}
       exc = ''
       counting.calls = []
       for rname, est in ests.items():
         arg = (store[T[:, 0]] if size == 1 else store[T]) if rname == 'formed' else (T[:, 0] if size == 1 else T).astype(dt)
+        if rname != 'formed' and size > 1 and forder:
+          arg = np.asfortranarray(arg)           # (the index array in Fortran order: the same indices)
         try:
           digs[rname] = digest(np.asarray(call(est, meth, arg, labels)))
         except Exception as e:
